@@ -1529,3 +1529,173 @@ Proof.
   cbn [flat_map map fst snd cat_of fold_right]. rewrite nval_app, nlen_app, IHv, IHn. split; [|reflexivity].
   f_equal. fold (mask (nlen v) (sval rho sg v)). rewrite mask_sval. reflexivity.
 Qed.
+
+
+(* ====================================================================== *)
+(* rtlil.emit_assignment_list terminates with its assertion: completeness   *)
+(* ====================================================================== *)
+(* the chain of enables from c reaches cond (c is a condition nested, possibly not at all, under cond); every Match
+   output on the way exists *)
+Inductive under (tab : mtab) (cond : cnd) : cnd -> Prop :=
+| under_refl : under tab cond cond
+| under_step k b mc : nth_error tab k = Some mc -> (b < length (mc_pats mc))%nat ->
+                      under tab cond (mc_en mc) -> under tab cond (CM k b).
+
+(* conditions as the netlist builder produces them: a chain of existing Match outputs ending in const 1 *)
+Definition conds_ok (tab : mtab) (l : list nassign) : Prop := Forall (fun a => under tab CTrue (na_cond a)) l.
+
+Lemma cnd_eqb_neq a b : cnd_eqb a b = false -> a <> b.
+Proof. intros H ->. rewrite cnd_eqb_refl in H. discriminate. Qed.
+
+Lemma under_trans tab x y z : under tab x y -> under tab y z -> under tab x z.
+Proof. intros Hxy Hyz. induction Hyz; auto. eapply under_step; eauto. Qed.
+
+Lemma climb_spec tab cond : forall fuel c last, under tab CTrue c -> (cdepth c < fuel)%nat -> wf_tab tab ->
+  match climb fuel tab cond c last with
+  | Found k => (c = cond /\ last = Some k) \/
+               (exists mc j, nth_error tab k = Some mc /\ mc_en mc = cond /\ (j < length (mc_pats mc))%nat /\
+                             under tab (CM k j) c)
+  | NotNested => ~ under tab cond c
+  | Stuck => c = cond /\ last = None
+  end.
+Proof.
+  induction fuel as [|f IH]; intros c last Hv Hd Hwf; [lia|]. cbn [climb].
+  destruct (cnd_eqb c cond) eqn:E.
+  - apply cnd_eqb_eq in E. destruct last; auto.
+  - apply cnd_eqb_neq in E. destruct c as [|k0 b0].
+    + intros H. inversion H; subst; congruence.
+    + inversion Hv as [|? ? mc0 Hn Hb Hen]; subst. rewrite Hn.
+      assert (Hd' : (cdepth (mc_en mc0) < f)%nat).
+      { pose proof (Hwf k0 mc0 Hn) as Hk. destruct (mc_en mc0); simpl in *; lia. }
+      specialize (IH (mc_en mc0) (Some k0) Hen Hd' Hwf).
+      destruct (climb f tab cond (mc_en mc0) (Some k0)) as [k| |].
+      * destruct IH as [[H1 H2]|[mc [j [H1 [H2 [H3 H4]]]]]].
+        -- injection H2 as <-. right. exists mc0, b0. repeat split; auto. apply under_refl.
+        -- right. exists mc, j. repeat split; auto. eapply under_step; eauto.
+      * intros H. inversion H as [|? ? mc1 Hn1 Hb1 Hen1]; subst; [congruence|].
+        rewrite Hn in Hn1. injection Hn1 as <-. auto.
+      * destruct IH as [_ H]. discriminate.
+Qed.
+
+Definition suffix (rest l : list nassign) : Prop := exists used, l = used ++ rest.
+Lemma suffix_refl l : suffix l l. Proof. exists []. reflexivity. Qed.
+Lemma suffix_trans a b c : suffix a b -> suffix b c -> suffix a c.
+Proof. intros [u1 ->] [u2 ->]. exists (u2 ++ u1). rewrite app_assoc. reflexivity. Qed.
+Lemma suffix_cons a r l : suffix r l -> suffix r (a :: l).
+Proof. intros [u ->]. exists (a :: u). reflexivity. Qed.
+Lemma suffix_len rest l : suffix rest l -> (length rest <= length l)%nat.
+Proof. intros [u ->]. rewrite app_length. lia. Qed.
+Lemma suffix_strict rest l : suffix rest l -> rest <> l -> (length rest < length l)%nat.
+Proof.
+  intros [u ->] Hne. rewrite app_length. destruct u; [contradiction|]. simpl. lia.
+Qed.
+Lemma suffix_same_len rest l : suffix rest l -> length rest = length l -> rest = l.
+Proof. intros [u ->] H. rewrite app_length in H. destruct u; [reflexivity|simpl in H; lia]. Qed.
+Lemma suffix_conds tab rest l : suffix rest l -> conds_ok tab l -> conds_ok tab rest.
+Proof. intros [u ->] H. apply Forall_app in H. tauto. Qed.
+
+Definition head_not_under (tab : mtab) (cond : cnd) (rest : list nassign) : Prop :=
+  match rest with [] => True | a :: _ => ~ under tab cond (na_cond a) end.
+
+Lemma max_pats_ge tab k mc : nth_error tab k = Some mc -> (length (mc_pats mc) <= max_pats tab)%nat.
+Proof.
+  revert k. induction tab as [|m tab IH]; intros k H; [destruct k; discriminate|].
+  unfold max_pats. cbn [fold_right]. fold (max_pats tab). destruct k; simpl in H.
+  - injection H as <-. lia.
+  - specialize (IH k H). lia.
+Qed.
+
+Section Complete.
+  Variable tab : mtab.
+  Hypothesis Hwf : wf_tab tab.
+  Let D := length tab.
+  Let Q := (max_pats tab + 2)%nat.
+
+  Lemma emit_complete : forall fuel,
+    (forall cond l h, conds_ok tab l -> (D + 1 <= cdepth cond + h)%nat -> (cdepth cond <= D)%nat ->
+       (length l + h * Q <= fuel)%nat ->
+       suffix (snd (emit_as fuel tab cond l)) l /\ head_not_under tab cond (snd (emit_as fuel tab cond l))) /\
+    (forall k mc pats bit l h, nth_error tab k = Some mc -> pats = skipn bit (mc_pats mc) -> conds_ok tab l ->
+       (D + 1 <= S k + h)%nat -> (length pats + 1 + length l + h * Q <= fuel)%nat ->
+       suffix (snd (emit_cases fuel tab k (length (mc_sel mc)) pats bit l)) l /\
+       (forall a r j, l = a :: r -> (bit <= j < bit + length pats)%nat -> under tab (CM k j) (na_cond a) ->
+          (length (snd (emit_cases fuel tab k (length (mc_sel mc)) pats bit l)) < length l)%nat)).
+  Proof.
+    induction fuel as [|f [IHA IHB]].
+    - split.
+      + intros cond l h Hok Hh Hd Hf. exfalso. destruct h as [|h]; [lia|]. unfold Q in Hf. simpl in Hf. lia.
+      + intros k mc pats bit l h Hn Hp Hok Hh Hf. exfalso. lia.
+    - split.
+      + intros cond l h Hok Hh Hd Hf. cbn [emit_as]. destruct l as [|a r].
+        { split; [apply suffix_refl|exact I]. }
+        inversion Hok as [|? ? Ha Hr]; subst.
+        destruct (cnd_eqb (na_cond a) cond) eqn:Ec.
+        * destruct (IHA cond r h Hr Hh Hd ltac:(simpl in Hf; lia)) as [H1 H2].
+          destruct (emit_as f tab cond r) as [ts' rest']. cbn [snd] in *. split; [apply suffix_cons; auto|auto].
+        * pose proof (climb_spec tab cond (S (S (length tab))) (na_cond a) None Ha) as Hc.
+          assert (Hda : (cdepth (na_cond a) < S (S (length tab)))%nat).
+          { destruct (na_cond a) as [|k0 b0]; simpl; [lia|]. inversion Ha; subst.
+            assert (k0 < length tab)%nat by (apply nth_error_Some; congruence). lia. }
+          specialize (Hc Hda Hwf).
+          destruct (climb (S (S (length tab))) tab cond (na_cond a) None) as [k| |].
+          -- destruct Hc as [[_ Hc]|[mc [j [Hn [Hen [Hj Hu]]]]]]; [discriminate|]. rewrite Hn.
+             assert (Hk : (k < D)%nat) by (apply nth_error_Some; unfold D; congruence).
+             assert (Hdk : (cdepth cond <= k)%nat).
+             { pose proof (Hwf k mc Hn) as Hw. rewrite Hen in Hw. destruct cond; simpl in *; lia. }
+             destruct h as [|h]; [lia|].
+             pose proof (max_pats_ge tab k mc Hn) as Hmp.
+             assert (HfB : (length (mc_pats mc) + 1 + length (a :: r) + h * Q <= f)%nat).
+             { unfold Q in *. simpl in Hf. simpl. lia. }
+             destruct (IHB k mc (mc_pats mc) 0%nat (a :: r) h Hn eq_refl Hok ltac:(lia) HfB) as [H1 H2].
+             specialize (H2 a r j eq_refl ltac:(lia) Hu).
+             destruct (emit_cases f tab k (length (mc_sel mc)) (mc_pats mc) 0 (a :: r)) as [cases rest1]. cbn [snd] in *.
+             assert (Hok1 : conds_ok tab rest1) by (eapply suffix_conds; eauto).
+             destruct (IHA cond rest1 (S h) Hok1 Hh Hd ltac:(simpl in *; lia)) as [H3 H4].
+             destruct (emit_as f tab cond rest1) as [ts' rest']. cbn [snd] in *.
+             split; [eapply suffix_trans; eauto|auto].
+          -- cbn [snd]. split; [apply suffix_refl|exact Hc].
+          -- destruct Hc as [Hc _]. apply cnd_eqb_neq in Ec. contradiction.
+      + intros k mc pats bit l h Hn Hp Hok Hh Hf. cbn [emit_cases]. destruct pats as [|pl ps].
+        { cbn [snd]. split; [apply suffix_refl|]. intros a r j _ Hj. simpl in Hj. lia. }
+        assert (Hk : (k < D)%nat) by (apply nth_error_Some; unfold D; congruence).
+        assert (Hps : ps = skipn (S bit) (mc_pats mc)).
+        { clear - Hp. revert Hp. generalize (mc_pats mc). induction bit as [|b IH]; intros m Hp.
+          - destruct m; simpl in *; [discriminate|]. injection Hp as _ <-. reflexivity.
+          - destruct m; simpl in *; [discriminate|]. apply IH. exact Hp. }
+        destruct (IHA (CM k bit) l h Hok ltac:(simpl; lia) ltac:(simpl; lia) ltac:(simpl in *; lia)) as [H1 H2].
+        destruct (emit_as f tab (CM k bit) l) as [body rest1]. cbn [snd] in *.
+        assert (Hok1 : conds_ok tab rest1) by (eapply suffix_conds; eauto).
+        pose proof (suffix_len _ _ H1) as Hl1.
+        destruct (IHB k mc ps (S bit) rest1 h Hn Hps Hok1 Hh ltac:(simpl in *; lia)) as [H3 H4].
+        assert (Hres : suffix (snd (emit_cases f tab k (length (mc_sel mc)) ps (S bit) rest1)) l /\
+                       (forall a r j, l = a :: r -> (bit <= j < bit + length (pl :: ps))%nat ->
+                          under tab (CM k j) (na_cond a) ->
+                          (length (snd (emit_cases f tab k (length (mc_sel mc)) ps (S bit) rest1)) < length l)%nat)).
+        { split; [eapply suffix_trans; eauto|]. intros a r j -> Hj Hu.
+          pose proof (suffix_len _ _ H3) as Hl3.
+          destruct (Nat.eq_dec (length rest1) (length (a :: r))) as [Heq|Hne].
+          - (* nothing consumed by this bit: then j is a later bit *)
+            apply (suffix_same_len _ _ H1) in Heq. subst rest1. assert (j <> bit).
+            { intros ->. simpl in H2. contradiction. }
+            apply (H4 a r j eq_refl); [simpl in Hj; lia|exact Hu].
+          - lia. }
+        destruct (emit_cases f tab k (length (mc_sel mc)) ps (S bit) rest1) as [cs' rest2]. cbn [snd] in *.
+        destruct (is_default (length (mc_sel mc)) pl); [exact Hres|]. destruct pl; exact Hres.
+  Qed.
+End Complete.
+
+(* every assignment list whose conditions are chains of existing Match outputs (as _ir builds them) passes the
+   emitter's final assertion: the model returns a process, with the fuel it is given *)
+Theorem emit_assignment_list_complete tab default l : wf_tab tab -> conds_ok tab l ->
+  exists proc, emit_assignment_list tab default l = Some proc.
+Proof.
+  intros Hwf Hok. unfold emit_assignment_list.
+  assert (Hf : (length l + (length tab + 1) * (max_pats tab + 2) <= al_fuel tab l)%nat \/ l = []).
+  { destruct l as [|a r]; [right; reflexivity|left]. unfold al_fuel. simpl length. nia. }
+  destruct Hf as [Hf| ->]; [|unfold al_fuel; simpl; eauto].
+  destruct (proj1 (emit_complete tab Hwf (al_fuel tab l)) CTrue l (length tab + 1)%nat Hok
+              ltac:(simpl; lia) ltac:(simpl; lia) Hf) as [H1 H2].
+  destruct (emit_as (al_fuel tab l) tab CTrue l) as [ts rest]. cbn [snd] in *.
+  destruct rest as [|a' rest']; [eauto|].
+  exfalso. apply H2. pose proof (suffix_conds tab _ _ H1 Hok) as Hc. inversion Hc; auto.
+Qed.
